@@ -6,7 +6,7 @@ PID = "C06"
 
 
 def scenarios(rng, tier):
-    sc = T.fam_auth(rng) + T.fam_auth(rng, cfg=T.CFG_F) + T.fam_breach(rng)[:6]
+    sc = T.fam_auth(rng) + T.fam_auth(rng, cfg=T.CFG_F) + T.fam_breach(rng)[:6] + T.fam_late(rng)[::4]
     sc += T.fam_random(rng, 12 if tier == "quick" else 150)
     if tier == "thorough":
         sc += T.fam_auth(rng, cfg=T.CFG_A) + T.fam_breach(rng) + T.fam_expiry(rng, cfgs=(T.CFG_B,))
